@@ -46,7 +46,7 @@ func runC04(c *Ctx) {
 			cfg.wrapper = w
 			d := depth
 			if w == "windowed" {
-				d = depth + 1
+				d = depth + c.Pick(1, 0)
 			}
 			if w == "traced" && !c.Thorough() {
 				d = depth - 1
